@@ -134,6 +134,8 @@ struct Solver {
     last_assumptions: Vec<Term>,
     core_mode: String,
     diversify: u64,
+    model_validated: bool,
+    model_is_bogus: bool,
     /// deterministic effort bound per session: number of satisfiability queries answered
     max_checks: Option<u64>,
     nchecks: u64,
@@ -149,6 +151,10 @@ enum Last {
     None,
     Sat,
     Unsat,
+}
+
+fn crate_trunc(s: &str) -> String {
+    s.chars().take(300).collect()
 }
 
 fn out(s: &str) {
@@ -453,6 +459,8 @@ impl Solver {
         let ans = self.z3.ask(&q);
         let i = self.cmd_index;
         self.last_assumptions = assumptions.clone();
+        self.model_validated = false;
+        self.model_is_bogus = false;
         match ans.as_str() {
             "sat" => {
                 self.last = Last::Sat;
@@ -515,6 +523,40 @@ impl Solver {
         }
         if self.last != Last::Sat {
             return self.reject(text, "get-value without a preceding sat answer");
+        }
+        // the backend's model must be a model: the assumptions of the query it answered `sat` to (and, for small
+        // conversations, the assertions) have to hold under the values it hands out - checked once per sat answer
+        if !self.model_validated {
+            self.model_validated = true;
+            let mut must_hold: Vec<Term> = self.last_assumptions.clone();
+            if self.asserts.iter().map(|l| l.len()).sum::<usize>() <= 200 {
+                for l in &self.asserts {
+                    must_hold.extend(l.iter().cloned());
+                }
+            }
+            let mut vnames = BTreeSet::new();
+            for t in &must_hold {
+                self.deps(t, &mut vnames, &mut BTreeSet::new(), &mut vec![]);
+            }
+            if let Ok(m) = self.model_of(&vnames) {
+                let mut broken = None;
+                for t in &must_hold {
+                    let mut ev = Evaluator::new(&self.scope, &m);
+                    if let Ok(SVal::Bool(false)) = ev.eval(t) {
+                        broken = Some(show_term(t));
+                        break;
+                    }
+                }
+                if let Some(b) = broken {
+                    self.model_is_bogus = true;
+                    let i = self.cmd_index;
+                    self.log(json!({"i": i, "cmd": text, "backend_model_not_a_model": crate_trunc(&b)}));
+                }
+            }
+        }
+        if self.model_is_bogus {
+            out("(error \"refsolver-badmodel: the backend's model does not satisfy the query it answered sat to\")");
+            return;
         }
         let mut names = BTreeSet::new();
         for t in &terms {
@@ -792,6 +834,8 @@ fn main() {
         last_assumptions: vec![],
         core_mode: std::env::var("REFSOLVER_CORE").unwrap_or_else(|_| "minimal".into()),
         diversify: std::env::var("REFSOLVER_DIVERSIFY").ok().and_then(|s| s.parse().ok()).unwrap_or(0),
+        model_validated: false,
+        model_is_bogus: false,
         max_checks: std::env::var("REFSOLVER_MAX_CHECKS").ok().and_then(|s| s.parse().ok()),
         nchecks: 0,
         pushed_for_diversification: 0,
